@@ -154,6 +154,7 @@ func (in *Interp) builtin(b *ssa.Builtin, args []Value, c *ssa.CallCommon) Value
 	st := in.St
 	switch b.Name() {
 	case "len":
+		in.raceMap(args[0], false)
 		return in.mapAlts(args[0], func(v Value) Value {
 			switch a := v.(type) {
 			case *StrVal:
@@ -216,7 +217,26 @@ func (in *Interp) builtin(b *ssa.Builtin, args []Value, c *ssa.CallCommon) Value
 		}
 		return st.BV(uint64(n), 64)
 	case "delete":
+		in.raceMap(args[0], true)
 		in.mapDelete(args[0], args[1])
+		return &TupleVal{}
+	case "clear":
+		// maps only (clear of a slice is not needed so far)
+		in.raceMap(args[0], true)
+		in.forAlts(args[0], func(v Value) Value {
+			mv, ok := v.(*MapVal)
+			if !ok {
+				panic(in.unsupported("clear of " + describe(v)))
+			}
+			if mv.M == nil {
+				return nil
+			}
+			g := in.storeGuard(mv.M.birth)
+			for _, e := range mv.M.Entries {
+				e.G = in.St.And(e.G, in.St.Not(g))
+			}
+			return nil
+		})
 		return &TupleVal{}
 	case "panic":
 		in.panicIf(st.T, "explicit-panic")
